@@ -63,6 +63,10 @@ CHECKS = {
          "RFC 7064/7065 component-level reference (UriRef) in TLA+; TLC enumerates the complete component product and exports each URI; the real ParseURI/String/DialURI (injected transport.Net, first-bytes classification, in-memory TLS servers) are recorded and a TLA+ trace specification checks defaults, must-accept/must-reject classes, field constraints, round trip and the dial plan",
          "Every URI of the component product (5040) and 3 mutations of each judged by TLC against UriRef; all hand-made scheme/transport combinations and every parser-producible shape dialled; secure connections sharing a DialConfig must each authenticate their own host.",
          "Trusted: UriRef's classification as the reading of the property; wire-level observation of the wrapping; TLC; harness."),
+ "C14": (True, "DESIGN.md §4 C14",
+         "TLC as linearizability checker: recorded concurrent histories of the real Agent (invoke/return stamped by one atomic counter, nested calls from handlers) are searched for a linearization against the sequential TLA+ specification (AgentCore) with just-in-time linearization points and a depth-first state queue; binary built with -race; watchdog for stuck goroutines",
+         "Every recorded history (8/16 goroutines contending on 3-4 ids, in-flight width 4/6, barriers every 30 calls, one Close per history, handlers calling back into the agent) is accepted by AgentLin, i.e. explainable by one sequential order respecting real-time order, including exactly-one-terminator; no race report; no stuck goroutine.",
+         "Trusted: Go race detector (executed schedules only), atomic stamping, AgentCore, TLC. A history TLC cannot decide within its time budget is inconclusive."),
 }
 
 ALL = ["C%02d" % i for i in range(1, 21)]
